@@ -1,7 +1,7 @@
 (** C18 — the theorems cited by Properties_C18.v, with concrete examples (non-vacuity). *)
 From Coq Require Import ZArith NArith List Bool Lia ZifyBool.
 From Texel Require Import Chess.Types gen.PolyglotRandoms Book.Polyglot Book.BuiltIn Book.BookSpec
-  Book.PolyglotProofs Book.SearchProofs Book.RangeProofs Book.DecodeProofs.
+  Book.PolyglotProofs Book.SearchProofs Book.RangeProofs Book.DecodeProofs Book.CodecProofs.
 Import ListNotations.
 Local Open Scope Z_scope.
 
@@ -159,6 +159,16 @@ Proof.
   unfold decodeCand. rewrite getMove_spec; [reflexivity|]. apply entMove_range.
 Qed.
 
+(** * round trips *)
+Theorem entry_codec_roundtrip : forall h m w, (h < two64)%N -> (m < 65536)%N -> (w < 65536)%N ->
+  deSerialize (serialize h m w) = mkEnt h m w /\ length (serialize h m w) = 16%nat.
+Proof. exact codec_roundtrip. Qed.
+
+Theorem pgmove_decode_roundtrip : forall pos m,
+  roundTripDomain (whiteMove pos) (getPiece pos (mfrom m)) m = true ->
+  getMove pos (getPGMove pos m) = m.
+Proof. exact pgmove_roundtrip. Qed.
+
 (** * hash key table accesses *)
 Theorem hash_indices_in_table : forall pos,
   Forall (fun i => (N.to_nat i < length hashRandoms)%nat) (hashIndices pos).
@@ -281,6 +291,17 @@ Example ex_castle :
   [mv 4 6; mv 4 2; mv 60 62; mv 60 58; mv 4 6]
   /\ map (getMove (mkSimplePos rookE1Squares true 0%N (-1))) [263; 256]%N = [mv 4 7; mv 4 0].
 Proof. vm_compute. auto. Qed.
+
+(** getPGMove writes castling as king-takes-rook and getMove reads it back; the domain predicate
+    holds for the castling moves themselves *)
+Example ex_pgmove :
+  let p := mkSimplePos castleSquares true 15%N (-1) in
+  map (getPGMove p) [mkMove 4 6 0; mkMove 4 2 0; mkMove 4 12 0; mkMove 0 8 0]%N = [263; 256; 268; 8]%N /\
+  forallb (roundTripDomain true WKING) [mkMove 4 6 0; mkMove 4 2 0; mkMove 4 12 0]%N = true /\
+  roundTripDomain true WKING (mkMove 4 7 0)%N = false /\
+  roundTripDomain true WPAWN (mkMove 48 56 WQUEEN)%N = true /\
+  roundTripDomain true WPAWN (mkMove 48 56 BQUEEN)%N = false.
+Proof. vm_compute. auto 10. Qed.
 
 (** promotion codes: white a7a8 with codes 1..4 and an out-of-range code *)
 Example ex_promotion :
